@@ -85,7 +85,10 @@ type Amount struct {
 type Commodity struct {
 	Symbol   string
 	Position CommodityPosition
-	Range    Range
+	// Quoted reports that the symbol was written in double quotes ("AAPL 2024");
+	// Symbol holds the text between the quotes.
+	Quoted bool
+	Range  Range
 }
 
 type CommodityPosition int
